@@ -784,7 +784,7 @@ func (in *Interp) execIndex(th *Thread, fr *Frame, x *ssa.Index) {
 		in.checkIndex(th, idx, len(b.v), "index")
 		i := int(in.concInt(th, idx, types.Typ[types.Int64], "index"))
 		in.set(fr, x, copyVal(b.v[i]))
-	case string, *SymStr:
+	case string, *SymStr, *LazyStr:
 		bs := in.strBytes(b)
 		in.checkIndex(th, idx, len(bs), "index")
 		i := int(in.concInt(th, idx, types.Typ[types.Int64], "index"))
@@ -834,7 +834,16 @@ func (in *Interp) implements(t types.Type, it *types.Interface) bool {
 
 // noteAlloc applies the harness's allocation-proportion policy to an element count n (64-bit).
 func (in *Interp) noteAlloc(th *Thread, fr *Frame, n *Term, what string, negPanics bool) {
-	if in.allocLim < 0 || n.IsConst() {
+	if in.allocLim < 0 {
+		return
+	}
+	if n.IsConst() {
+		// concrete replay: the recorded count must exceed the limit again
+		if in.concrete != nil && n.S() > in.allocLim {
+			in.recordFailure(th, &Failure{Kind: "alloc", Label: "alloc-out-of-proportion", Site: in.siteOf(fr),
+				Detail: fmt.Sprintf("%s of %d elements, limit %d", what, n.S(), in.allocLim)}, nil)
+			in.fail("fail-stop", "alloc")
+		}
 		return
 	}
 	lim := in.st.Const(64, uint64(in.allocLim))
@@ -848,8 +857,7 @@ func (in *Interp) noteAlloc(th *Thread, fr *Frame, n *Term, what string, negPani
 	if in.queryFeasible(th, tooBig) {
 		in.recordFailure(th, &Failure{Kind: "alloc", Label: "alloc-out-of-proportion", Site: site,
 			Detail: fmt.Sprintf("%s element count can exceed %d (input-controlled)", what, in.allocLim)}, tooBig)
-		// continue under the assumption that the count is within the limit
-		in.assume(th, in.st.Not(tooBig))
+		in.fail("fail-stop", "alloc")
 	}
 }
 
@@ -900,7 +908,7 @@ func (in *Interp) execSlice(th *Thread, fr *Frame, x *ssa.Slice) {
 	switch b := base.(type) {
 	case Slice:
 		length, capacity = b.len, b.cap
-	case string, *SymStr:
+	case string, *SymStr, *LazyStr:
 		length = in.strLen(b)
 		capacity = length
 	case Pointer:
@@ -933,6 +941,9 @@ func (in *Interp) execSlice(th *Thread, fr *Frame, x *ssa.Slice) {
 		}
 	} else if !in.branch(th, ok, "slice-bounds") {
 		in.panicRT(th, fmt.Sprintf("slice bounds out of range [symbolic] with capacity %d", capacity))
+	}
+	if lz, ok := base.(*LazyStr); ok {
+		base = in.force(lz)
 	}
 	l := int(in.concInt(th, lo, types.Typ[types.Int64], "slice-lo"))
 	h := int(in.concInt(th, hi, types.Typ[types.Int64], "slice-hi"))
@@ -982,7 +993,7 @@ func (in *Interp) execLookup(th *Thread, fr *Frame, x *ssa.Lookup) {
 		} else {
 			in.set(fr, x, v)
 		}
-	case string, *SymStr:
+	case string, *SymStr, *LazyStr:
 		bs := in.strBytes(b)
 		idx := in.toI64(in.get(fr, x.Index).(*Term), x.Index.Type())
 		in.checkIndex(th, idx, len(bs), "index")
@@ -1016,7 +1027,7 @@ func (in *Interp) execRange(th *Thread, fr *Frame, x *ssa.Range) {
 			}
 			in.mapOrder(th, fr, it)
 		}
-	case string, *SymStr:
+	case string, *SymStr, *LazyStr:
 		it.isSt = true
 		it.str = in.strBytes(b)
 	default:
